@@ -4,6 +4,12 @@ the implementation: the datagrams on the simulated wire, the responses put on ea
 
 Shares no code with aiocoap or the Lean model.  `check(res)` returns a list of (key, verdict).
 
+A datagram whose `sendmsg()` raised (record `f@`) is a transport error reported for that observer at that moment
+(RFC 7252 has nothing to say about it; the property: "the registration ends when ... a transport error is reported
+for the observer"): it ends every registration of that endpoint, and nothing of it was transmitted.  A response the
+render task puts on a pipe that has ended (or that ends over it) reaches nobody; such records are flagged by the
+runner and are not emissions.
+
 Keys that are recorded as known findings (known_findings.json): `C08:queued-notification-sent-after-end` (a
 notification first transmitted after the end), `C08:notification-retransmitted-after-end` (a notification first
 transmitted before the end, retransmitted after it; never the registration's final notification itself),
@@ -28,6 +34,7 @@ class Reg:
         self.accepted = False
         self.accept_tick = None
         self.emissions = []      # dicts tick code obs body last dg
+        self.discarded = []      # the same for responses put on the pipe when it had ended / ended over them
         self.end = None          # (tick, cause)
         self.callbacks = []
 
@@ -53,6 +60,7 @@ def check(res):
     version = 0
     changes = []        # (tick, version, target sv or None, seq)
     renders = []
+    failed = []         # sends that failed: dicts tick remote seq + wire fields
     for seq, e in enumerate(log):
         if e[0] == "in":
             _, tok, tick, ev = e
@@ -61,9 +69,15 @@ def check(res):
                 version += 1
                 changes.append((tick, version, None if ev[0] == "U" else ev[2], seq))
             continue
-        _, text, tick, sv = e
+        _, text, tick, sv = e[:4]
+        discarded = len(e) > 4 and bool(e[4])
         k, rest = text.split(":", 1)
-        if k.startswith("s@"):
+        if k.startswith("f@"):
+            remote, w = rest.split(":", 1)
+            d = _parse_wire(w)
+            d.update(tick=tick, remote=int(remote), seq=seq)
+            failed.append(d)
+        elif k.startswith("s@"):
             remote, w = rest.split(":", 1)
             d = _parse_wire(w)
             d.update(tick=tick, remote=int(remote), idx=len(sends), seq=seq)
@@ -81,7 +95,7 @@ def check(res):
             renders.append((tick, int(s), int(ver)))
         elif k == "n":
             s, code, obs, body, last = rest.split(":")
-            regs[int(s)].emissions.append({"tick": tick, "code": int(code),
+            (regs[int(s)].discarded if discarded else regs[int(s)].emissions).append({"tick": tick, "code": int(code),
                                            "obs": None if obs == "-" else int(obs),
                                            "body": int(body), "last": last == "1", "dg": None,
                                            "order": len(sends), "seq": seq})
@@ -160,6 +174,12 @@ def check(res):
                 r.end_at(t, "transport error", q)
             if ev[0] == "X":
                 r.end_at(t, "shutdown", q)
+        for d in failed:
+            if d["remote"] == r.remote and d["seq"] > r.seq:
+                r.end_at(d["tick"], "transport error (send failed)", d["seq"])
+        for t, ev, q in ins:
+            if q < r.seq:
+                continue
             if ev[0] == "M" and ev[3] == "RST" and ev[2] == r.remote:
                 for em in r.emissions:
                     d = em["dg"]
